@@ -57,7 +57,7 @@ struct SocketAsyncImpl
 
   // in thread context of DriverImpl
   SOCKET DriverGetFd() const;
-  void DriverQuery(short &events);
+  bool DriverQuery(short &events);
   void DriverOnReadable();
   void DriverConnect(ConnectHandler const &onConnect);
   void DriverReceive(ReceiveHandler const &onReceive);
